@@ -38,6 +38,15 @@ pub fn vx_string_len(s: &String) -> (r: usize)
     s.len()
 }
 
+/// str::len in bytes (N11)
+#[verifier::external_body]
+pub fn vx_str_len(s: &str) -> (r: usize)
+    ensures
+        r == byte_len(s@),
+{
+    s.len()
+}
+
 /// `&s[n..]`: panics unless n is a character boundary of s (N11)
 #[verifier::external_body]
 pub fn vx_str_from(s: &str, n: usize) -> (r: &str)
